@@ -90,7 +90,21 @@ class Abstract:
         return out
 
 
-@with_history
+def _warmup(h):
+    """Ask the matrices once; results are discarded."""
+    from hypergraphx import linalg as LA
+    LA.binary_incidence_matrix(h, return_mapping=True)
+    h.binary_incidence_matrix(return_mapping=True)
+    LA.incidence_matrix(h, return_mapping=True)
+    LA.adjacency_matrix(h, return_mapping=True)
+    h.adjacency_matrix(return_mapping=True)
+    LA.dual_random_walk_adjacency(h, return_mapping=True)
+    for d in (1, 2):
+        LA.adjacency_matrix_by_order(h, d, return_mapping=True)
+        LA.incidence_matrix_by_order(h, d, return_mapping=True)
+
+
+@with_history(warmup=_warmup)
 def build(case):
     from hypergraphx import Hypergraph
     L = case["U"]["labels"]
